@@ -437,3 +437,17 @@ Definition expressible7 (p : packet7) : bool :=
        | P7Control _ => true
        end
   end.
+
+Definition packet_bytes_ok7 (p : packet7) : bool :=
+  match p with
+  | P7Connless payload tok rtok => bytes_ok payload && bytes_ok tok && bytes_ok rtok
+  | P7Connected _ tok ty =>
+    bytes_ok tok
+    && match ty with
+       | P7Chunks _ _ payload => bytes_ok payload
+       | P7Control (C7Close reason) => bytes_ok reason
+       | P7Control (C7Connect rt) => bytes_ok rt
+       | P7Control (C7Token rt) => bytes_ok rt
+       | P7Control _ => true
+       end
+  end.
